@@ -664,6 +664,8 @@ impl<'p> Machine<'p> {
                     if let Some((env, fst, snd)) = self.print_vars.take() {
                         if self.stats.print_changed.is_none() && env.iter().map(|e| &e.0).eq(mk.env.iter().map(|e| &e.0)) {
                             let (f2, s2) = (self.locs_for(env.len(), false), self.locs_for(env.len(), true));
+                                self.stats.print_contexts_compared += 1;
+                                self.stats.print_context_variables_compared += env.len() as u64;
                             for (i, (name, chi)) in env.iter().enumerate() {
                                 let ext = matches!(chi, super::Chi::Ext);
                                 if (snd[i].1 && snd[i] != s2[i]) || (!ext && fst[i].1 && fst[i] != f2[i]) {
